@@ -294,8 +294,11 @@ class SyntaxCheckInstance(Visitor):
     def _visit_for(self, stmt: ForStmt, ctx: _Ctx):
         env = ctx.env
         self._visit_expr(stmt.iterable, ctx)
-        env = self._visit_binding(stmt.target, env)
-        body_env = self._visit_block(stmt.body, _Ctx(env, False))
+        # The target is bound for the body only: the loop may run zero
+        # times, so neither the target nor anything introduced in the
+        # body is defined afterwards (merge against the pre-loop env).
+        body_in = self._visit_binding(stmt.target, env)
+        body_env = self._visit_block(stmt.body, _Ctx(body_in, False))
         return env.merge(body_env)
 
     def _visit_context(self, stmt: ContextStmt, ctx: _Ctx):
